@@ -1149,15 +1149,19 @@ class Mailbox:
         # the number of messages is fewer than the previous number of
         # messages it shrunk.
         #
-        if len(msg_keys) < self.num_msgs:
-            on_disk = set(msg_keys)
-            if len(self.msg_keys) == len(self.uids) and on_disk.issubset(
-                self.msg_keys
+        on_disk = set(msg_keys)
+        if len(msg_keys) < self.num_msgs or not on_disk.issuperset(
+            self.msg_keys
+        ):
+            if len(self.msg_keys) == len(self.uids) and (
+                on_disk.issubset(self.msg_keys)
+                or len(msg_keys) >= self.num_msgs
             ):
-                # Messages we know about are gone and nothing else changed:
-                # an expunge removed the files but we did not get to record
-                # it (the server was killed half-way through.) The messages
-                # that are left keep their UIDs.
+                # Messages we know about are gone: an expunge removed the
+                # files but we did not get to record it (the server was killed
+                # half-way through.) The messages that are left keep their
+                # UIDs. (If mail was also delivered in the meantime those
+                # messages are picked up as new messages further down.)
                 #
                 logger.warning(
                     "Mailbox: '%s' has shrunk, from %d messages to %d. "
